@@ -2120,3 +2120,512 @@ def _(m, callee, args):
     m.write_place(r.frame, r.place, other)
     m.write_place(r2.frame, r2.place, old)
     return ()
+
+
+# ------------------------------------------------------------------ second breadth batch: what a small patch is likely to reach for
+@model(r'char::methods::<impl char>::is_ascii_(uppercase|lowercase|alphabetic|digit|alphanumeric|punctuation|whitespace)$|char::methods::<impl char>::is_ascii$')
+def _(m, callee, args):
+    from .models import charval
+    c = charval(m, args[0])
+    kind = callee.rsplit('is_ascii', 1)[1].lstrip('_')
+    def rng(a, b):
+        return z3.And(z3.UGE(c, a), z3.ULE(c, b)) if is_sym(c) else a <= c <= b
+    OR = (lambda *xs: z3.Or(*xs)) if is_sym(c) else (lambda *xs: any(xs))
+    if kind == '':
+        return z3.ULT(c, 128) if is_sym(c) else c < 128
+    if kind == 'uppercase':
+        return rng(65, 90)
+    if kind == 'lowercase':
+        return rng(97, 122)
+    if kind == 'alphabetic':
+        return OR(rng(65, 90), rng(97, 122))
+    if kind == 'digit':
+        return rng(48, 57)
+    if kind == 'alphanumeric':
+        return OR(rng(65, 90), rng(97, 122), rng(48, 57))
+    if kind == 'whitespace':
+        return OR(*[(c == w) for w in (32, 9, 10, 12, 13)])
+    return OR(rng(33, 47), rng(58, 64), rng(91, 96), rng(123, 126))
+
+
+@model(r'str::<impl str>::eq_ignore_ascii_case$')
+def _(m, callee, args):
+    from .unicode import to_ascii_lower
+    a, b = rstr(m, args[0]).cs, rstr(m, args[1]).cs
+    return str_eq(m, RStr([to_ascii_lower(c) for c in a]), RStr([to_ascii_lower(c) for c in b]))
+
+
+@model(r'str::<impl str>::is_char_boundary$')
+def _(m, callee, args):
+    cs = rstr(m, args[0]).cs
+    off = 0
+    for c in cs:
+        if off == args[1]:
+            return True
+        off += U8(m, c)
+    return off == args[1]
+
+
+def U8(m, c):
+    from .unicode import utf8_len
+    return utf8_len(m, c)
+
+
+@model(r'str::<impl str>::split_at$')
+def _(m, callee, args):
+    from .models import cidx
+    cs = rstr(m, args[0]).cs
+    i = cidx(m, cs, args[1], 'split index')
+    return (S(cs[:i]), S(cs[i:]))
+
+
+@model(r'str::<impl str>::(splitn|rsplitn)::<')
+def _(m, callee, args):
+    cs = rstr(m, args[0]).cs
+    n = args[1]
+    kind, p = _pat_pred(m, args[2])
+    if kind != 'str':
+        p = None
+    parts = split_list(m, cs, p) if p is not None else [x.v.cs for x in []]
+    if p is None:
+        parts, cur = [], []
+        for c in cs:
+            if any(cmp_char_eq(m, c, q) for q in _pat_pred(m, args[2])[1]):
+                parts.append(cur)
+                cur = []
+            else:
+                cur.append(c)
+        parts.append(cur)
+    sep = p if p is not None else None
+    if 'rsplitn' in callee:
+        raise Unsupported('rsplitn')
+    if len(parts) > n:
+        head, tail = parts[:n - 1], parts[n - 1:]
+        joined = []
+        for i, t in enumerate(tail):
+            if i:
+                joined += (sep if sep is not None else [cs[sum(len(x) + 1 for x in parts[:n - 1 + i]) - 1]])
+            joined += t
+        parts = head + [joined]
+    return PyIter('list', items=[S(x) for x in parts], pos=0)
+
+
+@model(r'^Option::<.*>::(filter|is_some_and|is_none_or)::<')
+def _(m, callee, args):
+    op = re.search(r'::(filter|is_some_and|is_none_or)::<', callee).group(1)
+    if disc_is(m, args[0], 1):
+        v = args[0].fields[0]
+        r = truthy(m, m.call_closure(args[1], [ValRef(v)] if op == 'filter' else [v]))
+        return (args[0] if r else NONE()) if op == 'filter' else r
+    return NONE() if op == 'filter' else (op == 'is_none_or')
+
+
+@model(r'^Option::<.*>::take$')
+def _(m, callee, args):
+    r = args[0]
+    old = m.read_place(r.frame, r.place)
+    m.write_place(r.frame, r.place, NONE())
+    return old
+
+
+@model(r'^Option::<.*>::(get_or_insert_with|get_or_insert)::<|^Option::<.*>::get_or_insert$|^Option::<.*>::insert$')
+def _(m, callee, args):
+    r = args[0]
+    cur = m.read_place(r.frame, r.place)
+    if 'get_or_insert' in callee and disc_is(m, cur, 1):
+        return ValRef(cur.fields[0])
+    v = m.call_closure(args[1], []) if 'insert_with' in callee else args[1]
+    new = some(v)
+    m.write_place(r.frame, r.place, new)
+    return ValRef(v)
+
+
+@model(r'^Option::<.*>::ok_or$|^Option::<.*>::ok_or::<')
+def _(m, callee, args):
+    return OK(args[0].fields[0]) if disc_is(m, args[0], 1) else ERR(args[1])
+
+
+@model(r'^Option::<.*>::zip::<')
+def _(m, callee, args):
+    if disc_is(m, args[0], 1) and disc_is(m, args[1], 1):
+        return some((args[0].fields[0], args[1].fields[0]))
+    return NONE()
+
+
+@model(r'^Option::<.*>::(cloned|copied)$')
+def _(m, callee, args):
+    if disc_is(m, args[0], 1):
+        return some(deref_all(m, args[0].fields[0]))
+    return NONE()
+
+
+@model(r'^Result::<.*>::(is_ok|is_err)$')
+def _(m, callee, args):
+    ok = disc_is(m, args[0], 0)
+    return ok if callee.endswith('is_ok') else not ok
+
+
+@model(r'^Result::<.*>::and_then::<')
+def _(m, callee, args):
+    if disc_is(m, args[0], 0):
+        return m.call_closure(args[1], [args[0].fields[0]])
+    return args[0]
+
+
+@model(r'^Result::<.*>::or_else::<')
+def _(m, callee, args):
+    if disc_is(m, args[0], 1):
+        return m.call_closure(args[1], [args[0].fields[0]])
+    return args[0]
+
+
+@model(r'^Result::<.*>::unwrap_or_else::<')
+def _(m, callee, args):
+    if disc_is(m, args[0], 0):
+        return args[0].fields[0]
+    return m.call_closure(args[1], [args[0].fields[0]])
+
+
+@model(r'^Result::<.*>::unwrap_or$|^Result::<.*>::unwrap_or::<')
+def _(m, callee, args):
+    return args[0].fields[0] if disc_is(m, args[0], 0) else args[1]
+
+
+@model(r'^Result::<.*>::unwrap_err$|^Result::<.*>::expect_err$')
+def _(m, callee, args):
+    if disc_is(m, args[0], 0):
+        raise Panic('called `Result::unwrap_err()` on an `Ok` value')
+    return args[0].fields[0]
+
+
+@model(r' as Iterator>::zip::<')
+def _(m, callee, args):
+    b = args[1]
+    if not isinstance(deref_all(m, b), (PyIter, Iter)):
+        b = into_iter(m, b)
+    out = []
+    while True:
+        x = it_next(m, args[0])
+        if x is None:
+            break
+        y = it_next(m, b)
+        if y is None:
+            break
+        out.append((x, y))
+    return PyIter('list', items=out, pos=0)
+
+
+@model(r' as Iterator>::(take_while|skip_while)::<')
+def _(m, callee, args):
+    items = drain(m, args[0])
+    k = 0
+    while k < len(items) and truthy(m, m.call_closure(args[1], [ValRef(items[k])])):
+        k += 1
+    return PyIter('list', items=items[:k] if 'take_while' in callee else items[k:], pos=0)
+
+
+@model(r' as Iterator>::position::<')
+def _(m, callee, args):
+    i = 0
+    while True:
+        x = it_next(m, args[0])
+        if x is None:
+            return NONE()
+        if truthy(m, m.call_closure(args[1], [x])):
+            return some(i)
+        i += 1
+
+
+@model(r' as Iterator>::find::<')
+def _(m, callee, args):
+    while True:
+        x = it_next(m, args[0])
+        if x is None:
+            return NONE()
+        if truthy(m, m.call_closure(args[1], [ValRef(x)])):
+            return some(x)
+
+
+@model(r' as Iterator>::find_map::<')
+def _(m, callee, args):
+    while True:
+        x = it_next(m, args[0])
+        if x is None:
+            return NONE()
+        r = m.call_closure(args[1], [x])
+        if disc_is(m, r, 1):
+            return r
+
+
+@model(r' as Iterator>::(cloned|copied)$')
+def _(m, callee, args):
+    return PyIter('list', items=[deref_all(m, x) if isinstance(x, (Ref, ValRef)) else x for x in drain(m, args[0])], pos=0)
+
+
+@model(r' as Iterator>::flatten$')
+def _(m, callee, args):
+    out = []
+    for x in drain(m, args[0]):
+        out.extend(drain(m, into_iter(m, x)))
+    return PyIter('list', items=out, pos=0)
+
+
+@model(r' as Iterator>::for_each::<')
+def _(m, callee, args):
+    for x in drain(m, args[0]):
+        m.call_closure(args[1], [x])
+    return ()
+
+
+@model(r' as Iterator>::nth$')
+def _(m, callee, args):
+    x = None
+    for _ in range(args[1] + 1):
+        x = it_next(m, args[0])
+        if x is None:
+            return NONE()
+    return some(x)
+
+
+@model(r' as Iterator>::step_by$')
+def _(m, callee, args):
+    items = drain(m, args[0])
+    return PyIter('list', items=items[::args[1]], pos=0)
+
+
+@model(r' as Iterator>::sum::<')
+def _(m, callee, args):
+    tot = 0
+    for x in drain(m, args[0]):
+        x = deref_all(m, x) if isinstance(x, (Ref, ValRef)) else x
+        tot = tot + x
+    return tot
+
+
+@model(r' as Iterator>::(max|min)$')
+def _(m, callee, args):
+    items = drain(m, args[0])
+    if not items:
+        return NONE()
+    best = items[0]
+    for x in items[1:]:
+        a, b = deref_all(m, x), deref_all(m, best)
+        if isinstance(a, RStr):
+            lt = str_lt(m, a.cs, b.cs)
+        else:
+            if is_sym(a) or is_sym(b):
+                raise Unsupported('max/min over symbolic integers')
+            lt = a < b
+        if (callee.endswith('min') and lt) or (callee.endswith('max') and not lt):
+            best = x
+    return some(best)
+
+
+@model(r' as Iterator>::partition::<')
+def _(m, callee, args):
+    yes, no = [], []
+    for x in drain(m, args[0]):
+        (yes if truthy(m, m.call_closure(args[1], [ValRef(x)])) else no).append(x)
+    return (RVec(yes), RVec(no))
+
+
+@model(r' as Iterator>::unzip::<')
+def _(m, callee, args):
+    a, b = [], []
+    for x, y in drain(m, args[0]):
+        a.append(x)
+        b.append(y)
+    return (RVec(a), RVec(b))
+
+
+@model(r' as Iterator>::(size_hint|len)$|^<.* as ExactSizeIterator>::len$')
+def _(m, callee, args):
+    it = deref_all(m, args[0]) if not isinstance(args[0], PyIter) else args[0]
+    if isinstance(it, PyIter) and it.kind in ('list', 'slice', 'components'):
+        n = len(it.items) - it.pos
+        return (n, some(n)) if callee.endswith('size_hint') else n
+    raise Unsupported('length of a lazy iterator')
+
+
+@model(r' as DoubleEndedIterator>::next_back$')
+def _(m, callee, args):
+    it = deref_all(m, args[0]) if not isinstance(args[0], PyIter) else args[0]
+    if isinstance(it, PyIter) and it.kind in ('list', 'slice', 'components') and it.pos < len(it.items):
+        v = it.items.pop()
+        return some(ValRef(v) if it.kind == 'slice' else v)
+    if isinstance(it, PyIter) and it.kind in ('list', 'slice', 'components'):
+        return NONE()
+    raise Unsupported('next_back of a lazy iterator')
+
+
+@model(r'^Vec::<.*>::(remove|swap_remove)$')
+def _(m, callee, args):
+    r = args[0]
+    v = m.read_place(r.frame, r.place)
+    i = args[1]
+    if i >= len(v.items):
+        raise Panic('removal index out of bounds')
+    x = v.items[i]
+    m.write_place(r.frame, r.place, RVec(v.items[:i] + v.items[i + 1:]))
+    return x
+
+
+@model(r'^Vec::<.*>::truncate$')
+def _(m, callee, args):
+    r = args[0]
+    v = m.read_place(r.frame, r.place)
+    m.write_place(r.frame, r.place, RVec(v.items[:args[1]]))
+    return ()
+
+
+@model(r'^Vec::<.*>::clear$')
+def _(m, callee, args):
+    r = args[0]
+    m.write_place(r.frame, r.place, RVec([]))
+    return ()
+
+
+@model(r'^Vec::<.*>::retain::<')
+def _(m, callee, args):
+    r = args[0]
+    v = m.read_place(r.frame, r.place)
+    m.write_place(r.frame, r.place, RVec([x for x in v.items if truthy(m, m.call_closure(args[1], [ValRef(x)]))]))
+    return ()
+
+
+@model(r'^core::slice::<impl \[.*\]>::(sort_by|sort_unstable_by)::<')
+def _(m, callee, args):
+    v = deref_all(m, args[0])
+    items = list(v.items if isinstance(v, RVec) else v)
+    out = []
+    for it in items:
+        k = 0
+        while k < len(out):
+            o = m.call_closure(args[1], [ValRef(it), ValRef(out[k])])
+            d = o.disc if isinstance(o, Enum) else o
+            if d in (255, -1):      # Ordering::Less
+                break
+            k += 1
+        out.insert(k, it)
+    if isinstance(v, RVec):
+        v.items[:] = out
+    else:
+        v[:] = out
+    return ()
+
+
+@model(r'^core::slice::<impl \[.*\]>::(last_mut|first_mut)$|^Vec::<.*>::(last_mut|first_mut)$')
+def _(m, callee, args):
+    v = deref_all(m, args[0])
+    items = v.items if isinstance(v, RVec) else v
+    if not items:
+        return NONE()
+    i = len(items) - 1 if 'last' in callee else 0
+    return some(ValRef(items[i]))
+
+
+@model(r'^core::slice::<impl \[.*\]>::(windows|chunks)$')
+def _(m, callee, args):
+    v = deref_all(m, args[0])
+    items = list(v.items if isinstance(v, RVec) else v)
+    n = args[1]
+    if 'windows' in callee:
+        return PyIter('list', items=[RVec(items[i:i + n]) for i in range(0, len(items) - n + 1)], pos=0)
+    return PyIter('list', items=[RVec(items[i:i + n]) for i in range(0, len(items), n)], pos=0)
+
+
+@model(r'^Path::ancestors$')
+def _(m, callee, args):
+    s = rstr(m, args[0])
+    comps_ = models2.components(m, s)
+    out = [S(list(s.cs))]
+    while comps_:
+        if comps_[-1].disc == 1:
+            break
+        comps_ = comps_[:-1]
+        buf_ = []
+        for c in comps_:
+            buf_ = models2.path_push(m, buf_, models2.comp_str(c))
+        out.append(S(buf_))
+    return PyIter('list', items=out, pos=0)
+
+
+@model(r'^Path::strip_prefix::<')
+def _(m, callee, args):
+    a = models2.components(m, rstr(m, args[0]))
+    b = models2.components(m, rstr(m, args[1]))
+    if len(b) > len(a):
+        return ERR(('strip_prefix_error',))
+    for x, y in zip(a, b):
+        if x.disc != y.disc or (x.disc == 4 and not str_eq(m, x.fields[0].v, y.fields[0].v)):
+            return ERR(('strip_prefix_error',))
+    buf_ = []
+    for c in a[len(b):]:
+        buf_ = models2.path_push(m, buf_, models2.comp_str(c))
+    return OK(S(buf_))
+
+
+@model(r'^Path::ends_with::<')
+def _(m, callee, args):
+    a = models2.components(m, rstr(m, args[0]))
+    b = models2.components(m, rstr(m, args[1]))
+    if len(b) > len(a):
+        return False
+    for x, y in zip(a[len(a) - len(b):], b):
+        if x.disc != y.disc or (x.disc == 4 and not str_eq(m, x.fields[0].v, y.fields[0].v)):
+            return False
+    return True
+
+
+@model(r'^Path::iter$')
+def _(m, callee, args):
+    return PyIter('list', items=[S(models2.comp_str(c)) for c in models2.components(m, rstr(m, args[0]))], pos=0)
+
+
+@model(r'^PathBuf::pop$')
+def _(m, callee, args):
+    r = args[0]
+    s = rstr(m, r)
+    comps_ = models2.components(m, s)
+    if not comps_ or comps_[-1].disc == 1:
+        return False
+    buf_ = []
+    for c in comps_[:-1]:
+        buf_ = models2.path_push(m, buf_, models2.comp_str(c))
+    m.write_place(r.frame, r.place, RStr(buf_))
+    return True
+
+
+@model(r'^Path::display$|^Path::to_string_lossy$')
+def _(m, callee, args):
+    if callee.endswith('display'):
+        return ('display', rstr(m, args[0]))
+    return Enum(0, [ValRef(rstr(m, args[0]))], 'Borrowed')
+
+
+@model(r"core::fmt::rt::Argument::<'_>::new_display::<(std::path::)?Display<'_>>$")
+def _(m, callee, args):
+    v = deref_all(m, args[0])
+    return ('fmtarg', v[1] if isinstance(v, tuple) else v)
+
+
+@model(r"core::fmt::rt::Argument::<'_>::new_debug::<")
+def _(m, callee, args):
+    v = deref_all(m, args[0])
+    if isinstance(v, Enum) and v.name in ('Borrowed', 'Owned'):
+        v = deref_all(m, v.fields[0])
+    if isinstance(v, RStr):
+        # Debug of a str: quoted with escapes for `"` and `\\` (other escapes are outside the alphabets used)
+        out = [34]
+        for c in v.cs:
+            if isinstance(c, int) and c in (34, 92):
+                out += [92, c]
+            elif isinstance(c, int) and c == 10:
+                out += [92, ord('n')]
+            elif is_sym(c):
+                raise Unsupported('Debug formatting of a symbolic char')
+            else:
+                out.append(c)
+        out.append(34)
+        return ('fmtarg', RStr(out))
+    raise Unsupported(f'Debug formatting of {v!r}')
